@@ -34,6 +34,8 @@ type rtCase struct {
 }
 
 func runRT(r *ev.Recorder, c *rtCase) (key, msg string) {
+	r.Pending(c) // a Sign that never returns is a violation too: the driver re-runs the case alone before saying so
+	defer r.Done()
 	d, err := pu.DilKey(c.Seed)
 	if err != nil {
 		return "keygen/error", err.Error()
@@ -91,7 +93,11 @@ func runRT(r *ev.Recorder, c *rtCase) (key, msg string) {
 			return "seal/length", fmt.Sprintf("%s: sealed length %d", tag, len(sealed))
 		}
 		opened := dilithium.Open(sealed, &pk)
-		if !bytes.Equal(opened, m) || (len(m) > 0 && opened == nil) {
+		if opened == nil {
+			// nil is how Open says "invalid"; a caller cannot tell a valid sealed (even empty) message from a forgery then
+			return "open/nothing-for-valid", fmt.Sprintf("%s: Open(Seal(msg)) returned nil, its answer for an invalid sealed message", tag)
+		}
+		if !bytes.Equal(opened, m) {
 			return "open/differs", fmt.Sprintf("%s: Open(Seal(msg)) returned %d bytes, not the message", tag, len(opened))
 		}
 		if !bytes.Equal(dilithium.ExtractSignature(sealed), sig[:]) {
